@@ -158,6 +158,28 @@ def remove (s : St) (n : Net) : St × Outcome :=
     ({ s with dyn := s.dyn.filter (fun e => !(e.1 == k))
               allowed := s.allowed.map (fun rs => removeAllowed rs n) }, .ok)
 
+/-! ### the single-lock steps `ManageRoute` is made of (for the concurrency argument) -/
+
+/-- `Manager.AddDynamicRoute` (one critical section of `Manager.mu`); `false` = refused. -/
+def mAddStep (s : St) (n : Net) (metric : Nat) : St × Bool :=
+  let k := n.key
+  if s.cfgKeys.contains k ∧ ¬ dynHas s.dyn k then (s, false)
+  else ({ s with dyn := dynSet s.dyn k n metric }, true)
+
+/-- `ensureExitHandler().AddAllowedRoute` (one critical section of `Handler.routesMu`). -/
+def hAddStep (s : St) (n : Net) : St :=
+  { s with allowed := some (addAllowed (s.allowed.getD []) n) }
+
+/-- `Manager.RemoveDynamicRoute`; `false` = refused. -/
+def mRemoveStep (s : St) (n : Net) : St × Bool :=
+  let k := n.key
+  if ¬ dynHas s.dyn k then (s, false)
+  else ({ s with dyn := s.dyn.filter (fun e => !(e.1 == k)) }, true)
+
+/-- `exitHandler.RemoveAllowedRoute` (when there is a handler). -/
+def hRemoveStep (s : St) (n : Net) : St :=
+  { s with allowed := s.allowed.map (fun rs => removeAllowed rs n) }
+
 /-- A crafted open request's destination. -/
 inductive Dest where
   | ip (b : Bytes)                          -- an IP literal (4 or 16 bytes)
